@@ -483,6 +483,10 @@ def gen_pollseq(ctx):
             for y in pool:
                 if x != y:
                     add(al, pr, [x, y, x], "pollseq-pairwise-interference")
+        # ... and does the answer follow a re-installation of the patterns (and back)?
+        for nal, npr in ((pr, al), (b"x" + al, pr), (al, b"x" + pr)):
+            for x in pool:
+                add(al, pr, [x, "c%s;%s" % (hx(nal), hx(npr)), x, "c%s;%s" % (hx(al), hx(pr)), x], "pollseq-reinstall-interference")
     # (b) random histories, some with re-installations
     for _ in range(300 if not thorough else 4000):
         if rng.random() < 0.5:
